@@ -24,7 +24,13 @@ def varText (env : List (List Nat)) (ref : List Nat) : List Nat :=
   | some v => v
   | none => ref
 
-def homeRef : List Nat := [36, 72, 79, 77, 69]   -- "$HOME"
+def homeName : List Nat := [72, 79, 77, 69]   -- "HOME"
+
+/-- The text a home reference becomes: HOME's value when it is set, else the '~' as written. -/
+def homeText (env : List (List Nat)) : List Nat :=
+  match findEnv env homeName with
+  | some v => v
+  | none => [126]
 
 /-- The inner `for (t = 1;; ++t)`: the least `t ≥ 1` with `string[s + t]` not a name character. -/
 def refLen (str : List Nat) (s : Nat) : (t fuel : Nat) → Nat
@@ -43,8 +49,8 @@ def loop (env : List (List Nat)) (str : List Nat) : (fuel s start : Nat) → (ou
       let t := refLen str s 1 str.length
       let out := out ++ (str.drop start).take (s - start) ++ varText env ((str.drop s).take t)
       loop env str fuel (s + t) (s + t) out
-    else if c = 126 ∧ isPathDelim (at' str (s + 1)) then
-      let out := out ++ (str.drop start).take (s - start) ++ varText env homeRef
+    else if c = 126 ∧ isPathDelim (at' str (s + 1)) ∧ (s = 0 ∨ isPathDelim (at' str (s - 1))) then
+      let out := out ++ (str.drop start).take (s - start) ++ homeText env
       loop env str fuel (s + 1) (s + 1) out
     else
       loop env str fuel (s + 1) start out
